@@ -47,10 +47,12 @@ JOE_RULE = (
     "non-trivial = every scenario (each executes the real provider); distinct = distinct (scenario, trace) pairs"
 )
 
-FAMILIES["joe_c06"] = {"impl_family": "joe", "timeout_quick": 300, "timeout_thorough": 3000}
-FAMILIES["joe_c07"] = {"impl_family": "joe", "timeout_quick": 300, "timeout_thorough": 3000}
-FAMILIES["joe_c03"] = {"impl_family": "joe", "timeout_quick": 300, "timeout_thorough": 3000}
-FAMILIES["joe_c17"] = {"impl_family": "joe", "timeout_quick": 300, "timeout_thorough": 3000}
+# time limits: on the unchanged code the quick tier of `joe` takes about 11 s; a change that strands calls costs the 10 s deadline per
+# stuck scenario (the harness output is buffered: a run cut short by the limit loses its cases), hence the framework's default 600 s
+FAMILIES["joe_c06"] = {"impl_family": "joe", "timeout_quick": 600, "timeout_thorough": 3000}
+FAMILIES["joe_c07"] = {"impl_family": "joe", "timeout_quick": 600, "timeout_thorough": 3000}
+FAMILIES["joe_c03"] = {"impl_family": "joe", "timeout_quick": 600, "timeout_thorough": 3000}
+FAMILIES["joe_c17"] = {"impl_family": "joe", "timeout_quick": 600, "timeout_thorough": 3000}
 FAMILIES["joe_c04"] = {"impl_family": "joe_replay", "timeout_quick": 300, "timeout_thorough": 3000}
 # C03 on the resume scenarios (the REAL replayers make the Send / Flush calls of a replay on Joe's goroutine): the C03 monitor -
 # "every Send is followed by a Flush before Joe goes idle" counts the Sends of a replay too - on the joe_replay scenarios
